@@ -9,7 +9,9 @@ operations), and after every step compares
   * the outcome class (value / rejected / bool / list / open / alternatives),
   * the result projected back to the abstract form (type, auto flag, bin edges,
     closedness, members, count arrays, sums of weights, sampled values),
-  * every OLDER object of the workspace (operations must not mutate operands):
+  * every OLDER object of the workspace (operations must not mutate operands; the
+    one mutator, set_patch_pair, is executed on a deep copy of its operand - hidden
+    state included - which replaces the operand below that step):
     the raw pair counts and sums of weights of every level - for a CorrFunc of
     every member - are compared with the integers of the model after EVERY step,
     also after the read accessor ``get_array()`` (GetArray), whose returned
@@ -36,7 +38,7 @@ from .tlaval import to_tla
 Z0, ZU = 0.5, 1.0  # integer edge e  ->  redshift Z0 + ZU * e (exact in binary: dz = integer edge difference)
 NONE = 99
 
-ALL_OPS = ["Add", "Sub", "AddVar", "SubVar", "RAdd", "Mul", "Eq", "EqVar", "IsCompat", "IsCompatVar", "Bins", "Patches",
+ALL_OPS = ["Add", "Sub", "AddVar", "SubVar", "IAdd", "IAddVar", "Accumulate", "SetPatchPair", "RAdd", "Mul", "Eq", "EqVar", "IsCompat", "IsCompatVar", "Bins", "Patches",
            "IterBins", "IterPatches", "PatchSum", "GetArray", "Sample", "RedshiftCF", "RedshiftCD", "RedshiftCDVar", "Normalise",
            "Construct"]
 ACTION_OF_OP = {"RAdd": "SomeRAdd"}
@@ -53,7 +55,8 @@ OPNAME = dict(Add="add", Sub="sub", AddVar="add", SubVar="sub", RAdd="radd", Mul
               IsCompat="is_compatible", IsCompatVar="is_compatible", Bins="bins", Patches="patches",
               IterBins="iter_bins", IterPatches="iter_patches", PatchSum="sample_patch_sum", Sample="sample",
               RedshiftCF="from_corrfuncs", RedshiftCD="from_corrdata", RedshiftCDVar="from_corrdata",
-              Normalise="normalised", Construct="init", GetArray="get_array")
+              Normalise="normalised", Construct="init", GetArray="get_array", IAdd="iadd", IAddVar="iadd",
+              Accumulate="accumulate", SetPatchPair="set_patch_pair")
 LEVEL_ATTR = dict(PC="counts", SW="sum_weights")
 
 
@@ -82,7 +85,7 @@ def scen_key(s: dict) -> tuple:
 # ---------------------------------------------------------------------------
 
 
-def mc_module(scens, ops, dev) -> str:
+def mc_module(scens, ops, dev, stages=None) -> str:
     def rec(s):
         d = dict(s)
         d["mem"] = set(d["mem"])
@@ -90,17 +93,19 @@ def mc_module(scens, ops, dev) -> str:
 
     return ("---- MODULE Containers_MC ----\nEXTENDS Containers\n"
             "ScenDef == {" + ", ".join(rec(s) for s in scens) + "}\n"
-            "OpsDef == " + to_tla(set(ops)) + "\nDevDef == " + to_tla(set(dev)) + "\n====\n")
+            "OpsDef == " + to_tla(set(ops)) + "\nDevDef == " + to_tla(set(dev)) + "\n"
+            "StagesDef == " + ("<<>>" if not stages else "<<" + ", ".join(to_tla(set(st)) for st in stages) + ">>") + "\n====\n")
 
 
 def run_model(scens, ops, depth, *, invariants, focus=True, selset="full", dev=(), emit=False, coverage=False,
-              workers="auto", timeout=3000):
+              workers="auto", timeout=3000, stages=None):
+    """stages: optional sequence of operation sets, step n of every history is taken from stages[n-1]."""
     invs = list(invariants) + (["PrintStep"] if emit else [])
     cfg = tlc.make_cfg(
         constants=dict(Scenarios="<- ScenDef", Ops="<- OpsDef", MaxDepth=depth, Focus="TRUE" if focus else "FALSE",
-                       SelSet=f'"{selset}"', Deviations="<- DevDef", Emit="TRUE" if emit else "FALSE"),
+                       SelSet=f'"{selset}"', Stages="<- StagesDef", Deviations="<- DevDef", Emit="TRUE" if emit else "FALSE"),
         invariants=invs, deadlock=True)
-    return tlc.run("Containers_MC", cfg, extra_modules={"Containers_MC": mc_module(scens, ops, dev)}, coverage=coverage,
+    return tlc.run("Containers_MC", cfg, extra_modules={"Containers_MC": mc_module(scens, ops, dev, stages)}, coverage=coverage,
                    workers=workers, timeout=timeout)
 
 
@@ -411,12 +416,17 @@ def sel_class(sel, n=None) -> str:
 
 def arg_class(h, vws, res_out="") -> str:
     op = h["op"]
-    if op in ("AddVar", "SubVar") and h["var"] in ("copy", "counts", "samples"):
+    if op in ("AddVar", "SubVar", "IAddVar") and h["var"] in ("copy", "counts", "samples"):
         return "compatible"
-    if op in ("AddVar", "SubVar", "EqVar", "IsCompatVar", "RedshiftCDVar"):
+    if op == "Accumulate" and h["var"]:
+        return "compatible" if h["var"] in ("copy", "counts") else h["var"]
+    if op in ("AddVar", "SubVar", "IAddVar", "EqVar", "IsCompatVar", "RedshiftCDVar"):
         return h["var"]
-    if op in ("Add", "Sub"):
+    if op in ("Add", "Sub", "IAdd", "Accumulate"):
         return "compatible" if res_out in ("val", "alts") else "workspace"
+    if op == "SetPatchPair":
+        k = vws[h["i"] - 1]["k"]
+        return dict(PC="direct", NC="counts", CF="member.counts")[k] + ("" if h["sel"]["st"] else ",zeros")
     if op == "Eq":
         return "same_object" if h["i"] == h["j"] else "workspace"
     if op == "IsCompat":
@@ -527,7 +537,7 @@ def get_array_target(world: World, a, var: str):
 
 
 def execute(world: World, h, res, rws, salt: int = 0):
-    """-> ("val", obj) | ("rej", exc) | ("bool", x) | ("list", [...]) | ("arr", ndarray) | ("asym", (x == y, y == x)) | ("other", x)."""
+    """-> ("val", obj) | ("rej", exc) | ("bool", x) | ("list", [...]) | ("arr", ndarray) | ("asym", (x == y, y == x)) | ("mut", updated copy of the operand) | ("other", x)."""
     op = h["op"]
     a = rws[h["i"] - 1]
     args = res.get("args", [])
@@ -536,6 +546,28 @@ def execute(world: World, h, res, rws, salt: int = 0):
             r = a + rws[h["j"] - 1]
         elif op == "Sub":
             r = a - rws[h["j"] - 1]
+        elif op in ("IAdd", "IAddVar"):
+            x = a
+            x += rws[h["j"] - 1] if op == "IAdd" else _operand(world, h, args, a)
+            r = x
+        elif op == "Accumulate":
+            other = rws[h["j"] - 1] if h["j"] else _operand(world, h, args, a)
+            t = 0
+            t += a
+            t += other
+            r = t
+        elif op == "SetPatchPair":
+            # the mutator works on a deep copy (hidden state such as caches is copied with it): the
+            # siblings of this step in the history tree still need the operand as it was
+            obj = copy.deepcopy(a)
+            m, sel = h["var"], h["sel"]
+            target = obj if m == "x" else getattr(obj, m)
+            if isinstance(target, world.NormalisedCounts):
+                target = target.counts
+            nb = target.num_bins
+            binned = np.array([0.0 if sel["st"] == 0 else float(sel["st"] + b) for b in range(1, nb + 1)])
+            ret = target.set_patch_pair(int(sel["lo"]) - 1, int(sel["hi"]) - 1, binned)
+            return ("mut", obj) if ret is None else ("other", ret)
         elif op == "AddVar":
             other = _operand(world, h, args, a)
             r = (other + a) if h["req"] else (a + other)
@@ -644,6 +676,39 @@ def nz_expected(items):
     return data, samples
 
 
+def nz_undefined(items):
+    """Where n(z) is undefined, and how: -> (strict_data, strict_samples, denom_data, denom_samples) boolean arrays.
+    strict: w_sp itself is undefined, or the radicand is <= 0: the real value must be nan or +-inf.
+    denom : w_sp is a number and only an autocorrelation is undefined; the model does not tell x/0 (= inf, which
+            sends n(z) to exactly 0) from 0/0 (= nan): the real value must be non-finite or exactly 0."""
+    cross, ref, unk = items[:3]
+    nb = len(cross["data"])
+
+    def kind(wsp, wss, wpp, b):
+        f = [frac(wsp[b]), frac(wss[b]), frac(wpp[b])]
+        if f[0] is None:
+            return 2
+        if f[1] is None or f[2] is None:
+            return 1
+        return 2 if f[1] * f[2] <= 0 else 0
+
+    kd = np.array([kind(cross["data"], ref["data"], unk["data"], b) for b in range(nb)])
+    ks = np.array([[kind(cross["samples"][k], ref["samples"][k], unk["samples"][k], b) for b in range(nb)]
+                   for k in range(len(cross["samples"]))]).reshape((-1, nb))
+    return kd == 2, ks == 2, kd == 1, ks == 1
+
+
+def nz_finite_where_undefined(val, items) -> bool:
+    sd, ss, dd, ds = nz_undefined(items)
+    for got, strict, denom in ((val.data, sd, dd), (val.samples, ss, ds)):
+        got = np.asarray(got, dtype=np.float64)
+        if got.shape != strict.shape:
+            return False     # reported as a wrong shape elsewhere
+        if np.any(np.isfinite(got[strict])) or np.any(np.isfinite(got[denom]) & (got[denom] != 0.0)):
+            return True
+    return False
+
+
 class Judge:
     """Compares real outcomes with the expectations of the model and turns
     disagreements into violations / drift of property ``prop``."""
@@ -667,6 +732,10 @@ class Judge:
             cls = "RedshiftData" if h["var"] == "nz" else "HistData"
         elif h["op"] == "GetArray":
             cls = CLASSNAME[ga_path(h["var"], v["k"])[1]]   # the class whose accessor is called
+        elif h["op"] == "SetPatchPair":
+            cls = "PatchedCounts"
+        if outcome.startswith("finite_where"):
+            return f"{self.prop}|{cls}.{OPNAME[h['op']]}|undefined_bin|{outcome}"
         arg = "any" if outcome.startswith("mutates") else arg_class(h, vws, self._exp)
         return f"{self.prop}|{cls}.{OPNAME[h['op']]}|{arg}|{outcome}"
 
@@ -712,15 +781,18 @@ class Judge:
             mm = w.mismatches(obj, v)
             if not mm:
                 return True
-            if v["k"] in ("SD", "CD") and set(mm) <= {"data", "samples"} and has_undefined(v) and \
-                    _only_undefined_differs(obj, v):
-                self.drift(h, vws, "finite_value_where_formula_undefined", det(fields=mm))
-                return True
-            if h["op"] in ("Bins",) and h["sel"]["t"] == "slice" and h["sel"]["st"] != NONE and mm == ["edges"]:
-                self.drift(h, vws, "edges_of_non_contiguous_selection", det(fields=mm))
-                return True
             if sampled and self.sampling_is_foreign and not base_sampling_ok and set(mm) <= {"data", "samples"}:
                 self.drift(h, vws, "sampled_values_differ_from_model_see_C04", det(fields=mm))
+                return True
+            if v["k"] in ("SD", "CD") and set(mm) <= {"data", "samples"} and has_undefined(v) and \
+                    _only_undefined_differs(obj, v):
+                # the formula of the property is 0/0 or x/0 there: nan or +-inf (not told apart), never a number
+                self.violation(h, vws, "finite_where_formula_is_undefined",
+                               det(fields=mm, real_data=[float(x) for x in np.asarray(obj.data, dtype=float)],
+                                   real_samples=np.asarray(obj.samples, dtype=float).tolist()))
+                return False
+            if h["op"] in ("Bins",) and h["sel"]["t"] == "slice" and h["sel"]["st"] != NONE and mm == ["edges"]:
+                self.drift(h, vws, "edges_of_non_contiguous_selection", det(fields=mm))
                 return True
             if h["op"] == "Normalise" and set(mm) <= {"data", "samples"}:
                 # the property only fixes the integral
@@ -750,6 +822,14 @@ class Judge:
             else:
                 self.violation(h, vws, "asymmetric", det(x_eq_y=val[0], y_eq_x=val[1]))
             return None
+        if exp == "mut":
+            if kind == "rej":
+                self.violation(h, vws, f"raises_{type(val).__name__}", det(error=repr(val)))
+                return None
+            if kind != "mut":
+                self.violation(h, vws, f"returns_{kind}", det(real=_describe(val)))
+                return None
+            return val if check_value(val, res["v"], what="updated operand") else None
         if exp == "arr":
             if kind == "rej":
                 self.violation(h, vws, f"raises_{type(val).__name__}", det(error=repr(val)))
@@ -776,7 +856,10 @@ class Judge:
                 else:
                     self.violation(h, vws, "wrong_array", d)
             elif np.any(np.isfinite(got[undef])):
-                self.drift(h, vws, "finite_value_where_formula_undefined", det(real=got.tolist()))
+                if self.sampling_is_foreign and not base_sampling_ok:
+                    self.drift(h, vws, "normalised_array_differs_from_model_see_C04", det(real=got.tolist()))
+                else:
+                    self.violation(h, vws, "finite_where_formula_is_undefined", det(real=got.tolist()))
             return None
 
         if exp in ("val", "alts"):
@@ -852,13 +935,16 @@ class Judge:
                     bad.append("data")
                 if not _nz_same(np.asarray(val.samples), samples):
                     bad.append("samples")
+                if not bad and nz_finite_where_undefined(val, triple):
+                    bad.append("finite_where_formula_is_undefined")
                 if not bad:
                     break
                 first_bad = first_bad or bad
             bad = bad and first_bad
             if bad:
-                self.violation(h, vws, "wrong_" + bad[0],
-                               det(fields=bad, real_data=[float(x) for x in np.asarray(val.data)], model_data=[float(x) for x in data]))
+                self.violation(h, vws, bad[0] if bad[0].startswith("finite_where") else "wrong_" + bad[0],
+                               det(fields=bad, real_data=[float(x) for x in np.asarray(val.data)], model_data=[float(x) for x in data],
+                                   real_samples=np.asarray(val.samples, dtype=float).tolist()))
                 return None
             # normalising the estimate: integral over the binning = 1
             tot = float(np.nansum(np.diff(val.binning.edges) * val.data))
@@ -955,7 +1041,10 @@ def _short_entry(h) -> dict:
         out["j"] = h["j"]
     if h["var"]:
         out["var"] = h["var"]
-    if h["sel"]["t"] == "npint":
+    if h["sel"]["t"] == "pair":
+        out["patch_pair"] = [h["sel"]["lo"] - 1, h["sel"]["hi"] - 1]
+        out["counts_binned"] = "zeros" if h["sel"]["st"] == 0 else f"{h['sel']['st']}+bin"
+    elif h["sel"]["t"] == "npint":
         out["sel"] = f"numpy_integer({h['sel']['lo']})"
     elif h["sel"]["t"] != "none":
         out["sel"] = h["sel"]["lo"] if h["sel"]["t"] == "int" else \
@@ -971,7 +1060,7 @@ def _short_entry(h) -> dict:
 
 def _short_res(res) -> dict:
     out = dict(out=res["out"])
-    if res["out"] in ("val", "alts") or (res["out"] == "open" and res["v"]["k"] != "none"):
+    if res["out"] in ("val", "alts", "mut") or (res["out"] == "open" and res["v"]["k"] != "none"):
         v = res["v"]
         out["value"] = {k: v[k] for k in ("k", "auto", "edges", "closed", "den") if k in v}
         if v.get("data"):
@@ -1005,6 +1094,7 @@ class Replayer:
         for sk, hist, res in steps:
             self.tree.setdefault(sk, {}).setdefault(len(hist), []).append((hist, res))
         self.max_nodes = max_nodes
+        self._cap = max_nodes
         self.rng = rng
         self.replayed = 0
         self.histories = 0
@@ -1014,6 +1104,7 @@ class Replayer:
         self.eq_on_undefined = 0     # == with a prescribed result, executed on a real container holding NaN
         self.mutations = 0           # steps after which an older object of the workspace had changed
         self.classes_seen: dict = {}  # (class, operation, input class, expected outcome) of the replayed steps
+        self.around_mutation: dict = {}  # (operation before, "SetPatchPair", operation after) of the replayed histories
         self.sampling_is_foreign = sampling_is_foreign
 
     @staticmethod
@@ -1021,6 +1112,7 @@ class Replayer:
         return json.dumps(hist, sort_keys=True)
 
     def run(self):
+        done = 0
         for sk, (scen, v0) in sorted(self.inits.items(), key=lambda kv: repr(kv[0])):
             levels = self.tree.get(sk, {})
             children: dict = {}
@@ -1046,6 +1138,9 @@ class Replayer:
                         out = execute(self.world, hist[-1], res, [root])
                         alts = res["items"] if res["out"] == "alts" else [res["v"]]
                         base_ok = out[0] == "val" and any(not self.world.mismatches(out[1], a) for a in alts)
+            if self.max_nodes is not None:   # a capped replay spends an equal share on every scenario
+                self._cap = self.replayed + max(1, (self.max_nodes - self.replayed) // max(1, len(self.inits) - done))
+            done += 1
             self._descend(scen, [], [v0], [root], children, base_ok)
 
     def _descend(self, scen, hist, vws, rws, children, base_ok):
@@ -1053,8 +1148,11 @@ class Replayer:
         if not kids:
             self.histories += 1
             return
+        if self.max_nodes is not None and self.rng is not None:
+            kids = list(kids)            # a capped replay is a random sample of the tree, not its first branches
+            self.rng.shuffle(kids)
         for khist, res in kids:
-            if self.max_nodes is not None and self.replayed >= self.max_nodes:
+            if self.max_nodes is not None and self.replayed >= self._cap:
                 return
             h = khist[-1]
             self.replayed += 1
@@ -1065,6 +1163,9 @@ class Replayer:
                 if h["sel"]["t"] == "npint":
                     pair = (pair[0], pair[1] + ":npint")
                     self.pairs_seen[pair] = self.pairs_seen.get(pair, 0) + 1
+            if len(khist) > 2 and khist[-2]["op"] == "SetPatchPair":
+                tr = (khist[-3]["op"], "SetPatchPair", h["op"] + (":fresh" if h["var"] == "fresh" else ""))
+                self.around_mutation[tr] = self.around_mutation.get(tr, 0) + 1
             ck = (CLASSNAME.get(vws[h["i"] - 1]["k"], "?"), OPNAME[h["op"]], arg_class(h, vws, res["out"]), res["out"])
             self.classes_seen[ck] = self.classes_seen.get(ck, 0) + 1
             if h["op"] in ("Eq", "EqVar") and res["out"] == "bool" and has_undefined(vws[h["i"] - 1]):
@@ -1083,7 +1184,18 @@ class Replayer:
             nontrivial = (scen_key(scen), self.hkey(khist)) if len(khist) > 1 or res["out"] != "val" else None
             self.ctx.evaluated(1, nontrivial)
             before = self.mutations
-            if res["out"] in ("val", "alts"):
+            if res["out"] == "mut":
+                # the operand is replaced (model value and real object) below this step
+                if obj is None:
+                    try:
+                        obj = self.world.build(res["v"])
+                        self.repaired += 1
+                    except Exception:
+                        continue
+                pos = h["i"] - 1
+                self._descend(scen, khist, vws[:pos] + [res["v"]] + vws[pos + 1:], rws[:pos] + [obj] + rws[pos + 1:],
+                              children, base_ok)
+            elif res["out"] in ("val", "alts"):
                 if obj is None:
                     # continue below the failed step with the object the model prescribes
                     try:
@@ -1103,7 +1215,7 @@ class Replayer:
 def corrupt(res: dict) -> dict | None:
     """A deliberately wrong expectation derived from a correct one (binding demonstration)."""
     res = json.loads(json.dumps(res))
-    if res["out"] == "val":
+    if res["out"] in ("val", "mut"):
         v = res["v"]
         if v["k"] in ("SD", "CD"):
             n, d = v["data"][0]
